@@ -121,6 +121,13 @@ def classify(pid, rec, chk, variant):
             # no output to judge; termination is C04's business, but the schedule is reported as not decided
             chk.coverage.setdefault("schedules_without_output_verdict", 0)
             chk.coverage["schedules_without_output_verdict"] += 1
+        elif pid == "C14":
+            # ownership is judged on the part of the run that happened ("buffer not INV at the end" is termination's business)
+            for f in r.get("monitor_findings", []):
+                if f["rule"] in ("buffer-not-INV-when-io-thread-finished", "chunk-never-exported"):
+                    continue
+                chk.add_violation("C14|%s" % f["rule"], "ownership monitor (run that did not terminate): %s" % f["rule"], case=c,
+                                  variant=variant, detail=f.get("detail"), signature=r.get("sig"))
         return
     if st.startswith("signal:") or st.startswith("exit:"):
         chk.add_violation("%s|abnormal-termination|%s|%s" % (pid, st, c["kind"]),
